@@ -32,6 +32,38 @@ def wide_cases(rng):
     return out
 
 
+def dup_form_alias(rng):
+    """F19 (known finding): two @FormField parameters sharing one `name` alias."""
+    def prm(name, ty, alias):
+        return {"name": name, "ctx": False, "loc": "form", "alias": alias, "type": ty, "pointer": False, "validator": None,
+                "slice": False}
+    return [{
+        "config": {"schemes": ["sec1"], "default_security": None, "enforce": False, "engine": "gin", "title": "API",
+                   "version": "1", "base_url": "https://a.example.com"},
+        "controllers": [{"name": "FormCtl", "pkg": "ctl", "tag": "F", "route": "/f", "security": [], "descr": "",
+                         "methods": [{"name": "DupForm", "verb": "POST", "route": "/dup", "hidden": False, "deprecated": False,
+                                      "security": [], "params": [prm("c", "string", "y"), prm("d", "int", "y")], "ret": None,
+                                      "errtype": "error", "response": None, "errors": [], "descr": "", "file": 0}]}],
+        "types": ["Item"]}]
+
+
+def known_f19(project, obs):
+    import common
+    for c in project["controllers"]:
+        for m in c["methods"]:
+            wires = [(x["alias"] or x["name"]) for x in m["params"] if not x["ctx"] and x["loc"] == "form"]
+            if len(set(wires)) != len(wires):
+                for f in common.known_for("C06"):
+                    if f.get("match", {}).get("kind") == "duplicate-form-field-wire-name":
+                        body = [o["body"] for o in (obs["ops"] or []) if o["id"] == m["name"]]
+                        return (f, "%s.%s: form fields %s share a wire name -> %s" % (c["name"], m["name"], wires, body))
+    return None
+
+
+def extra(rng):
+    return wide_cases(rng) + dup_form_alias(rng)
+
+
 if __name__ == "__main__":
     res = speccheck.run(
         "C06", SPEC, {"security": False, "params": True, "multipkg": True}, 30, 250,
@@ -43,5 +75,5 @@ if __name__ == "__main__":
         assumptions=["go/packages discovery and kin-openapi/libopenapi rendering are exercised, not modelled",
                      "the extra 3.0 'default' response without content and description is projected out (see C11)"],
         nontrivial=lambda p, ops: bool(ops) and any(o["params"] or o["body"] for o in ops),
-        extra_cases=wide_cases)
+        extra_cases=extra, known_matcher=known_f19)
     sys.exit(res.finish())
